@@ -445,9 +445,15 @@ def with_tsf(f, fn):
 # operator-splitting sweeps; the frozen branch of an ancient sample has size 1 in any units and the step depends on it).
 # Level 1 = dadi.Integration.timescale_factor (1e-3), level 2 = 1/REFINE_STEP of it.  Demanded by the trace spec:
 #     d1 <= REFINE_CAP   and   d2 <= REFINE_RATIO * d1 + REFINE_FLOOR        (d = max|x - y| / max|y|)
-# Calibration: see the comment below the constants.
+# Calibration (2026-10-04, unchanged /repo, 63 distinct refinement cases from the quick tier under VERIF_SEED = default, 1..6
+# and the thorough tier under the default seed: 33 RoundTripRefines, 9 AncientEqualsFrozenBranchRefines, 21 ScaleInvarianceRefines):
+#   d1 between 1e-7 and 5.0e-4 (two cases at 1e-15, decided by the floor);
+#   d2/d1 for a  4x smaller step: median 0.25, max 0.54 (pre-asymptotic splitting error; a demanded 1/2 gave a false alarm);
+#   d2/d1 for a 16x smaller step: min 0.045, median 0.063 (= 1/16, first order), max 0.161 (next: 0.140, 0.121, 0.095).
+# So with a 16x reduction correct code stays below 0.161 < half of the demanded 2/5, while a discrepancy that does not vanish
+# with the step (d2/d1 -> 1) violates the clause as soon as it exceeds ~2/3 of the splitting error d1 (<= 5e-4).
 REFINE_STEP = 16
-REFINE_RATIO = '1/4'
+REFINE_RATIO = '2/5'
 REFINE_FLOOR = '1/1000000000'
 REFINE_CAP = '1/100'
 
@@ -1151,7 +1157,9 @@ def build_cases(ctx, rng):
                 'gt': [None, 25.0, None, 29.0][len(cases) % 4], 'seed': rng.randrange(10 ** 9), 'feats': sorted(features(p))}
         cases.append(case)
         if prog[-1]['k'] == 'int' and 2 <= Pf <= 4 and (P >= 4 or rng.random() < 0.6):
-            cases.append(dict(case, id=case['id'] + 'a', kind='ancient', Nref=rng.choice([40.0, 64.0, 100.0]), anc=rng.randint(1, Pf), phi=rng.choice([0.5, 0.25, round(rng.uniform(0.1, 0.9), 3)])))
+            slow = needs_refinement(prog)       # refinement clause: the finer level takes 16 x (Nref / 4) x 1000 steps per unit of frozen time
+            cases.append(dict(case, id=case['id'] + 'a', kind='ancient', Nref=40.0 if slow else rng.choice([40.0, 64.0, 100.0]), anc=rng.randint(1, Pf),
+                              phi=0.1 if slow else rng.choice([0.5, 0.25, round(rng.uniform(0.1, 0.9), 3)])))
     # graphs
     plans = [set(), {'tri'}, {'merge'}, {'admix'}, {'admix_end'}, {'branch'}, {'extinct'}, {'latepulse'}, {'merge', 'branch'}, {'pulsesplit'}, {'branch', 'pulsesplit'}]
     ngraphs = 11 if ctx.quick else 66
@@ -1208,7 +1216,9 @@ def build_cases(ctx, rng):
                 st, s2 = [tt() if x == a else 0.0 for x in smp], smp
         if len(set(zip(s2, st))) == len(s2) and max(st) > 0 and D + sum(1 for t in st if t > min(st)) <= 5:      # dadi integrates at most 5 populations
             cases.append(dict(base, id=gid + 'a', sampled=s2, ns=nsz(len(s2)), stimes=st, Ne=None, seed=rng.randrange(10 ** 9), feats=sorted(feats | {'anc-' + var}),
-                              scale_refine=(made % 5 == 1 and D <= 3)))
+                              # (refinement at a 16x finer step: only where the frozen branches live for at most 3 generations)
+                              scale_refine=(D <= 3 and 0 < max(st) - min(st) <= 3.0 and
+                                            sum(1 for x in cases if x.get('scale_refine')) < (3 if ctx.quick else 14))))
     return cases, gen_info
 
 
